@@ -34,6 +34,8 @@ COUNTERS = {
     'nobytes': {'resource-bytes': None},
     'norows': {'resource-rowcount': None},
     'nototal': {'datapackage-bytes': None, 'datapackage-rowcount': None},
+    # no byte counter anywhere, the hashes on: the hash is that of the complete file all the same
+    'hashonly': {'resource-bytes': None, 'datapackage-bytes': None, 'resource-rowcount': None, 'datapackage-rowcount': None},
     'nestedhash': {'resource-hash': 'checksum.md5', 'datapackage-hash': 'checksum.pkg'},
 }
 DEFAULT_NAMES = {'resource-bytes': 'bytes', 'resource-hash': 'hash', 'resource-rowcount': 'count_of_rows',
